@@ -25,7 +25,7 @@ pub fn scenarios() -> Vec<Scenario> {
         name: "c13-crossfamily",
         gen,
         run,
-        quick_runs: 80_000,
+        quick_runs: 1_000_000,
         weight: 1,
         rule: "case = (valid CONNECT of v3.1 / v3.1.1 / v5.0, decoder family, optional level override 0..=255, optional protocol-name corruption, schedule); non-trivial when sender and decoder family differ or the protocol field is altered; distinct by case hash",
     }]
